@@ -148,6 +148,18 @@ func c05Trans(c *Ctx, pre *Node, st Step, res *Result, post *State) ([]Violation
 		}
 		return nil, true
 	}
+	if st.Cmd() == "reset" && res.Exit == 0 && len(st.Args) == 3 && st.Args[1] == "--mixed" {
+		// Goit's own reading of the snapshot it has just been reset to, from a staging area that held something else
+		qa := post.Abs()
+		if snap, err := qa.Snapshot(qa.Tip()); err == nil && qa.IndexErr == nil {
+			if d := diffStrMaps("staging area after reset --mixed vs the snapshot", snap, qa.IndexMap(), nil); d != "" {
+				return []Violation{{Oracle: "reset-mixed-readback", Command: "reset", Tags: st.Tags, Detail: d}}, false
+			}
+		} else if qa.IndexErr != nil {
+			return []Violation{{Oracle: "reset-mixed-readback", Command: "reset", Tags: st.Tags, Detail: "the staging area does not decode after reset --mixed: " + qa.IndexErr.Error()}}, false
+		}
+		return nil, true
+	}
 	if _, ok := commitMsg(st); !ok || res.Exit != 0 {
 		return nil, true
 	}
@@ -299,7 +311,8 @@ func checkC05(e *RunEnv) *CheckResult {
 			Write("a", "a\n"), Write("f", zc), Write("d/f", zd), Write("z", "z\n"), Run("add", "a", "f", "d", "z"), Run("commit", "-m", "m").WithTags("id-two-zero-bytes")}})
 		special = x.RunCases(sp)
 		// the empty snapshot
-		x.RunCases([]Case{{Base: base, BaseName: "S0", BaseSeed: seedS0(), Steps: []Step{Write("a", "a\n"), Run("add", "a"), Run("commit", "-m", "c1"), Run("rm", "a"), Run("commit", "-m", "empty")}}})
+		x.RunCases([]Case{{Base: base, BaseName: "S0", BaseSeed: seedS0(), Steps: []Step{Write("a", "a\n"), Run("add", "a"), Run("commit", "-m", "c1"), Run("rm", "a"), Run("commit", "-m", "empty"),
+			Write("b", "b\n"), Write("c/d", "d\n"), Run("add", "b", "c"), Run("reset", "--mixed", "HEAD@{0}"), Run("add", "b"), Run("commit", "-m", "after the empty snapshot"), Run("reset", "--mixed", "HEAD@{1}")}}})
 	}, func(x *Explorer, cov map[string]interface{}) {
 		cov["name_set_sweep_cases"] = sweep
 		cov["name_set_max_size"] = k
